@@ -101,7 +101,7 @@ CHECKS = {
         'the same sign factor, bound to a negative literal for NCA; np.fill_diagonal(dist, inf) precedes the soft-max on every path; LMNN weights pull by reg and push by 1-reg in G, the objective and the returned 2 L G; '
         'MLKR\'s objective receives the validated (X, y) themselves; a bounded retry loop (exit by exhaustion) is refuted; '
         'LMNN examines every pair of differently labelled points exactly once (in: label == c, out: label > c) and compares each margin along its own axis. '
-        'That value and gradient EQUAL the documented objective and its derivative is NOT decided.'),
+        'NCA and MLKR: value and gradient equal the documented forms as identities of an entry-wise polynomial algebra (value sum(M*S) resp. sum((S y - y)^2); gradient c E^T (W + W^T, diagonal -colsum W) X with the documented pair weights W), reference forms frozen from the derivations. That the LMNN gradient is the derivative of its objective beyond the weighting, and numerical agreement, are NOT decided.'),
   note=TB),
  'C11': dict(
   technique='static analysis: inductive sign invariant of the dual updates (index agreement modulo commutativity), who-may-write rule on the metric (rank-one updates only), option table for strict_pd',
